@@ -1,136 +1,18 @@
 (* Executable model of biom/err.py: the error-profile state machine.
-   Written in the shape the translator emits (state threaded through raises).
-   Source anchors are given per definition.  *)
+   Everything that transcribes source code is GENERATED from the Python AST on every run
+   (coq/Gen/ErrGen.v, by tools/py2v with tools/py2v/sigs/err.json); the types it is written
+   over are in Model/ErrTypes.v.  What remains here is not source: the default profile object
+   and the small program language the correspondence run executes. *)
 From Coq Require Import List String Bool Arith ZArith Lia.
 From BiomV Require Import Base.Tree Base.ListUtil Base.Dict.
+From BiomV Require Export Model.ErrTypes Gen.ErrGen.
 Import ListNotations.
 Open Scope string_scope. Open Scope list_scope.
 
-Inductive exn := KeyError (msg : string) | TableException (msg : string) | TypeError.
-Inductive res (A : Type) := Ok (a : A) | Raise (e : exn).
-Arguments Ok {A}. Arguments Raise {A}.
-
-(* ErrorProfile._valid_states *)
-Definition valid_states : list string := ["raise"; "ignore"; "call"; "print"; "warn"].
-
-(* what the seven test predicates look at *)
-Record view := { v_empty : bool; v_rows : nat; v_cols : nat;
-                 v_oids : list Z; v_sids : list Z;
-                 v_omd : option nat; v_smd : option nat }.
-
-Fixpoint distinct (l : list Z) : list Z :=
-  match l with [] => [] | x :: t => if zmem x t then distinct t else x :: distinct t end.
-
-(* err.py:78-113 *)
-Definition test_empty (t : view) : bool := v_empty t.
-Definition test_obssize (t : view) : bool := negb (Nat.eqb (v_rows t) (List.length (v_oids t))).
-Definition test_sampsize (t : view) : bool := negb (Nat.eqb (v_cols t) (List.length (v_sids t))).
-Definition test_obsdup (t : view) : bool :=
-  negb (Nat.eqb (List.length (v_oids t)) (List.length (distinct (v_oids t)))).
-Definition test_sampdup (t : view) : bool :=
-  negb (Nat.eqb (List.length (v_sids t)) (List.length (distinct (v_sids t)))).
-Definition test_obsmdsize (t : view) : bool :=
-  match v_omd t with Some n => negb (Nat.eqb (v_rows t) n) | None => false end.
-Definition test_sampmdsize (t : view) : bool :=
-  match v_smd t with Some n => negb (Nat.eqb (v_cols t) n) | None => false end.
-
-(* the module-level registrations, err.py:314-336, in registration order *)
-Definition registry : dict (view -> bool) :=
-  [("empty", test_empty); ("obssize", test_obssize); ("sampsize", test_sampsize);
-   ("obsdup", test_obsdup); ("sampdup", test_sampdup);
-   ("obsmdsize", test_obsmdsize); ("sampmdsize", test_sampmdsize)].
-Definition default_state : dict string :=
-  [("empty","ignore");("obssize","raise");("sampsize","raise");("obsdup","raise");
-   ("sampdup","raise");("obsmdsize","raise");("sampmdsize","raise")].
-
-(* mutable part of the ErrorProfile object: _state and the 'call' slot of _profile *)
-Record profile := { st : dict string; calls : dict Z }.
+(* the profile after import of biom.err: the registered default states; every 'call' slot is
+   callback 0 (the harness installs its callback 0 on reset) *)
 Definition default_profile : profile :=
   {| st := default_state; calls := map (fun kv => (fst kv, 0%Z)) default_state |}.
-
-(* ErrorProfile.state setter, err.py:213-230.  Two loops over to_update: the first validates
-   every (kind, reaction) and raises before anything is written, the second writes. *)
-Definition validate_body (s : dict string) (acc : res unit) (kv : string * string) : res unit :=
-  match acc with
-  | Raise e => Raise e
-  | Ok _ =>
-      let '(errtype, new_state) := kv in
-      if negb (smem new_state valid_states) then Raise (KeyError "Unknown state type")
-      else if negb (dmem s errtype) then Raise (KeyError "Unknown error type")
-      else Ok tt
-  end.
-Definition apply_body (s : dict string) (kv : string * string) : dict string :=
-  dset s (fst kv) (snd kv).
-Definition state_set (self_state new_state : dict string) : dict string * res unit :=
-  let to_update :=
-    if dmem new_state "all"
-    then map (fun err => (err, match dget new_state "all" with Some v => v | None => "" end))
-             (dkeys self_state)
-    else new_state in
-  match fold_left (validate_body self_state) to_update (Ok tt) with
-  | Raise e => (self_state, Raise e)
-  | Ok _ => (fold_left apply_body to_update self_state, Ok tt)
-  end.
-
-(* seterr, err.py:344-392 *)
-Definition seterr (s kwargs : dict string) : dict string * res (dict string) :=
-  let old_state := s in
-  let '(s', r) :=
-    if dmem kwargs "all"
-    then state_set s [("all", match dget kwargs "all" with Some v => v | None => "" end)]
-    else state_set s kwargs in
-  match r with Ok _ => (s', Ok old_state) | Raise e => (s', Raise e) end.
-
-(* errstate, err.py:483-510: generator split at its single yield, which sits inside
-   try/finally: the old state is restored on both exits. *)
-Definition errstate_enter (s kwargs : dict string) := seterr s kwargs.
-Definition errstate_exit_normal (s old : dict string) : dict string := fst (seterr s old).
-Definition errstate_exit_exception (s old : dict string) : dict string := fst (seterr s old).
-
-(* seterrcall / ErrorProfile.setcall, err.py:262-291,395-427 *)
-Definition seterrcall (c : dict Z) (errtype : string) (func : Z) : dict Z * res Z :=
-  if negb (dmem c errtype) then (c, Raise (KeyError "Unknown error type"))
-  else (dset c errtype func, Ok (match dget c errtype with Some v => v | None => 0%Z end)).
-Definition geterrcall (c : dict Z) (errtype : string) : res Z :=
-  match dget c errtype with Some v => Ok v | None => Raise (KeyError "Unknown error type") end.
-
-(* observable reaction of errcheck *)
-Inductive event := EvNone | EvWarn (k : string) | EvPrint (k : string)
-                 | EvCall (k : string) (cb : Z) | EvRaise (k : string).
-
-(* ErrorProfile._handle_error, err.py: profile[state](item) *)
-Definition react (errtype r : string) (cb : Z) : event :=
-  if String.eqb r "raise" then EvRaise errtype
-  else if String.eqb r "warn" then EvWarn errtype
-  else if String.eqb r "print" then EvPrint errtype
-  else if String.eqb r "call" then EvCall errtype cb
-  else EvNone.
-Definition handle_error (p : profile) (errtype : string) : event :=
-  match dget (st p) errtype with
-  | Some r => react errtype r (match dget (calls p) errtype with Some c => c | None => 0%Z end)
-  | None => EvNone
-  end.
-Definition is_ignored (p : profile) (errtype : string) : bool :=
-  match dget (st p) errtype with Some r => String.eqb r "ignore" | None => false end.
-
-(* ErrorProfile.test, err.py:235-262:
-   for errtype in sorted(args): if test(item): [continue if the kind is ignored] return handle *)
-Fixpoint test_loop (p : profile) (item : view) (args : list string) : res event :=
-  match args with
-  | [] => Ok EvNone
-  | errtype :: rest =>
-      match dget registry errtype with
-      | None => Raise TypeError          (* self._test.get(errtype, lambda: None)(item) *)
-      | Some test =>
-          if test item then
-            if is_ignored p errtype then test_loop p item rest
-            else Ok (handle_error p errtype)
-          else test_loop p item rest
-      end
-  end.
-Definition errcheck (p : profile) (item : view) (args : list string) : res event :=
-  let args := match args with [] => dkeys registry | _ => args end in
-  test_loop p item (ssorted args).
 
 (* ---- programs over the profile (what the correspondence run executes) ---- *)
 Inductive instr :=
@@ -157,9 +39,9 @@ Fixpoint exec (p : profile) (i : instr) {struct i} : profile * list obs :=
       let '(s', r) := seterr (st p) kw in
       let p' := {| st := s'; calls := calls p |} in (p', [OSeterr r; snap p'])
   | ISetcall k cb =>
-      let '(c', r) := seterrcall (calls p) k cb in
+      let '(c', r) := seterrcall (st p) (calls p) k cb in
       let p' := {| st := st p; calls := c' |} in (p', [OCall r; snap p'])
-  | IGetcall k => (p, [OCall (geterrcall (calls p) k); snap p])
+  | IGetcall k => (p, [OCall (geterrcall (st p) (calls p) k); snap p])
   | ICheck v args => (p, [OCheck (errcheck p v args); snap p])
   | IBlock kw body exc =>
       match errstate_enter (st p) kw with
@@ -174,8 +56,10 @@ Fixpoint exec (p : profile) (i : instr) {struct i} : profile * list obs :=
                | i :: t => let '(p', o1) := exec p i in
                            let '(p'', o2) := go p' t in (p'', o1 ++ o2)
                end) p1 body in
-          let s3 := if exc then errstate_exit_exception (st p2) old
-                    else errstate_exit_normal (st p2) old in
+          (* the exception leaving the block is the harness's marker; which exception it is
+             does not matter to the state, TypeError stands for it *)
+          let s3 := if exc then fst (errstate_exit_exception (st p2) old TypeError)
+                    else fst (errstate_exit_normal (st p2) old) in
           let p3 := {| st := s3; calls := calls p2 |} in
           (p3, [OEnter true; snap p1] ++ os ++ [OExit; snap p3])
       end
